@@ -522,6 +522,41 @@ func c10PhaseSources(c *Check, a *Anchors) {
 		}
 		return true
 	})
+	// ... for every merged task, whatever the spelling of the include statement: the writes to IncludedTaskfileVars are not
+	// nested under a condition on the include (short form / long form)
+	condOn := ""
+	pmk := parentMap(tk.Body)
+	inspectBody(tk.Body, func(nd ast.Node) bool {
+		var target ast.Node
+		switch x := nd.(type) {
+		case *ast.AssignStmt:
+			if len(x.Lhs) == 1 && fieldSel(tinfo, x.Lhs[0], PkgAst, "Task", "IncludedTaskfileVars") {
+				target = x
+			}
+		case *ast.CallExpr:
+			if sel, ok := ast.Unparen(x.Fun).(*ast.SelectorExpr); ok && isFunc(callee(tinfo, x), PkgAst, "Vars", "Merge") && fieldSel(tinfo, sel.X, PkgAst, "Task", "IncludedTaskfileVars") {
+				target = x
+			}
+		}
+		if target == nil {
+			return true
+		}
+		for p := pmk[target]; p != nil; p = pmk[p] {
+			if ifs, ok := p.(*ast.IfStmt); ok && within(target, ifs.Body) {
+				ast.Inspect(ifs.Cond, func(m ast.Node) bool {
+					if sel, ok := m.(*ast.SelectorExpr); ok {
+						if s := tinfo.Selections[sel]; s != nil && s.Kind() == types.FieldVal && isNamed(s.Recv(), PkgAst, "Include") {
+							condOn = exprStr(ifs.Cond)
+						}
+					}
+					return true
+				})
+			}
+		}
+		return true
+	})
+	c.Decide(condOn == "", "phase-sources", "IncludedTaskfileVars-for-every-include@"+fnDisplay(tk), tk.Decl.Pos(), "recorded for every merged task",
+		"Task.IncludedTaskfileVars is only recorded when `"+condOn+"`: for the other spelling of an include the tasks fall back on the merged global variables, where a sibling include that defines the same name wins")
 	c.Decide(okIncluded, "phase-sources", "IncludedTaskfileVars-source@"+fnDisplay(tk), tk.Decl.Pos(), "built from the included-Taskfile vars parameter", "Task.IncludedTaskfileVars is not built from the vars parameter of Tasks.Merge")
 	c.Decide(okStmt, "phase-sources", "IncludeVars-source@"+fnDisplay(tk), tk.Decl.Pos(), "Task.IncludeVars merged from include.Vars", "Task.IncludeVars is not merged from the include statement's Vars")
 }
